@@ -961,9 +961,15 @@ func TestPointerChains(t *testing.T) {
 		offs := []int{}
 		for i := 0; i < c.Hops; i++ {
 			offs = append(offs, len(b)+len(body))
-			body = append(body, 1, 'b', 0xC0|byte(prev>>8), byte(prev))
+			if i < 100 {
+				body = append(body, 1, 'b', 0xC0|byte(prev>>8), byte(prev))
+				want = "b." + want
+			} else {
+				// the name stays within the 255 octets of a valid name (the property's domain): further
+				// hops are bare pointers, which RFC 1035 4.1.4 allows ("a pointer" is a whole name)
+				body = append(body, 0xC0|byte(prev>>8), byte(prev))
+			}
 			prev = offs[i]
-			want = "b." + want
 		}
 		// the question is the last name; everything before it is "junk" reached only through pointers,
 		// so QDCOUNT=1 and the question must start at the last hop: build the packet so that the
@@ -974,8 +980,12 @@ func TestPointerChains(t *testing.T) {
 		if err != nil {
 			return []vf.Finding{vf.F("llmnr.DecodeDomainName", "backward-pointer-chain-rejected", "%d hops: %v", c.Hops, err)}
 		}
-		if name != want || next != prev+4 {
-			return []vf.Finding{vf.F("llmnr.DecodeDomainName", "backward-pointer-chain-misread", "%d hops: got %q next %d want %q next %d", c.Hops, name, next, want, prev+4)}
+		wantNext := prev + 4
+		if c.Hops > 100 {
+			wantNext = prev + 2
+		}
+		if name != want || next != wantNext {
+			return []vf.Finding{vf.F("llmnr.DecodeDomainName", "backward-pointer-chain-misread", "%d hops: got %q next %d want %q next %d", c.Hops, name, next, want, wantNext)}
 		}
 		return nil
 	}, func(c chainCase) bool { return c.Hops >= 2 })
